@@ -26,7 +26,10 @@ RULE = ('angle sequences of length 1..40 on a quarter-degree grid in [0,360) tha
         'float64 ndarray, buffer as int/float/np.float64/np.float32/np.int64/keyword/omitted(default); angles and '
         'buffers within 2^-30 of a gate / boundary / threshold / limit of the accepted range (exact in float64), '
         'angles 0 and 360-2^-30; constant sequences, 1-3 frames; strided / reversed / Fortran / transposed views; '
-        'every call made twice on the same argument objects with the arguments snapshotted.  A case is non-trivial '
+        'every call made twice on the same argument objects with the arguments snapshotted; call histories: one '
+        'mutable boundaries object (list / ndarray) reused across _rotamers / is_buffered_transition / get_gates calls '
+        'and edited in place between them (library sets and random shifted sets, same and different buffers), and '
+        'fresh equal-content objects in x, y, x order, every call checked against the current content.  A case is non-trivial '
         'when the state changes at least once or a buffer kept a state that plain binning would change '
         '(rotamers) / at least one transition exists (transitions); distinct by canonical input')
 ASSUMPTIONS = ['angles, boundaries and buffers on the quarter-degree grid are exact in float64 and float32, so the '
@@ -64,6 +67,76 @@ def _lean_rat(v):
     if f.denominator == 1:
         return '(%d : Rat)' % f.numerator if f.numerator >= 0 else '(-%d : Rat)' % -f.numerator
     return '(mkRat (%d) %d)' % (f.numerator, f.denominator)
+
+
+def _is_empty_test(t):
+    """`len(X) == 0`, `X.size == 0`, `0 == len(X)`, `not len(X)`, `not X.size` with X in {columns, rows}"""
+    def sized(e):
+        if isinstance(e, ast.Call) and isinstance(e.func, ast.Name) and e.func.id == 'len' and len(e.args) == 1 \
+                and isinstance(e.args[0], ast.Name) and e.args[0].id in ('columns', 'rows'):
+            return True
+        return isinstance(e, ast.Attribute) and e.attr == 'size' and isinstance(e.value, ast.Name) \
+            and e.value.id in ('columns', 'rows')
+    if isinstance(t, ast.UnaryOp) and isinstance(t.op, ast.Not):
+        return sized(t.operand)
+    if isinstance(t, ast.Compare) and len(t.ops) == 1 and isinstance(t.ops[0], ast.Eq):
+        l, r = t.left, t.comparators[0]
+        return (sized(l) and _const_num(r) == 0) or (sized(r) and _const_num(l) == 0)
+    return False
+
+
+def _other_call_sites(repo_dir):
+    """boundary lists passed to `_rotamers` by any function other than phi_/psi_/chi_rotamers"""
+    found = []
+    root = os.path.join(repo_dir, 'enspara')
+    for dp, dn, fns in os.walk(root):
+        dn[:] = [d for d in dn if d not in ('test', '__pycache__')]
+        for fn in sorted(fns):
+            if not fn.endswith('.py'):
+                continue
+            path = os.path.join(dp, fn)
+            with open(path, 'rb') as f:
+                src = f.read()
+            if b'_rotamers' not in src:
+                continue
+            try:
+                tree = ast.parse(src)
+            except SyntaxError:
+                continue
+            for func in [n for n in ast.walk(tree) if isinstance(n, ast.FunctionDef)]:
+                if func.name in ('phi_rotamers', 'psi_rotamers', 'chi_rotamers') and fn == 'rotamer.py':
+                    continue
+                literals = {}
+                for node in ast.walk(func):
+                    if isinstance(node, ast.Assign) and len(node.targets) == 1 and isinstance(node.targets[0], ast.Name) \
+                            and isinstance(node.value, (ast.List, ast.Tuple)):
+                        vals = [_const_num(e) for e in node.value.elts]
+                        if vals and all(v is not None for v in vals):
+                            literals[node.targets[0].id] = vals
+                for node in ast.walk(func):
+                    if not isinstance(node, ast.Call):
+                        continue
+                    f_ = node.func
+                    nm = f_.id if isinstance(f_, ast.Name) else (f_.attr if isinstance(f_, ast.Attribute) else None)
+                    if nm != '_rotamers':
+                        continue
+                    arg = node.args[1] if len(node.args) > 1 else None
+                    for kw in node.keywords:
+                        if kw.arg == 'hard_boundaries':
+                            arg = kw.value
+                    vals = None
+                    if isinstance(arg, (ast.List, ast.Tuple)):
+                        vals = [_const_num(e) for e in arg.elts]
+                        if any(v is None for v in vals):
+                            vals = None
+                    elif isinstance(arg, ast.Name):
+                        vals = literals.get(arg.id)
+                    where = '%s:%s' % (os.path.relpath(path, repo_dir), func.name)
+                    if vals is None:
+                        raise RuntimeError('%s calls _rotamers with boundaries that are not a literal list; the '
+                                           'translator cannot put them into the generated constants' % where)
+                    found.append({'where': where, 'hb': vals})
+    return found
 
 
 def _extract(repo_dir):
@@ -114,9 +187,13 @@ def _extract(repo_dir):
     out['buffers']['core'] = _const_num(defaults.get('buffer_width'))
     if out['buffers']['core'] is None:
         raise RuntimeError('_rotamers: no literal default for buffer_width')
-    # disorder.transitions: does the 2-D branch guard the construction of the ragged array
-    # (any `if` / conditional expression / try inside the else-branch)?  The unchanged code has none and
-    # raises when no trajectory has a transition.
+    # other call sites of `_rotamers` anywhere in the package (outside the three wrappers): their boundary lists
+    # belong to "the sets used by the library" as well
+    out['extra_sets'] = _other_call_sites(repo_dir)
+    # disorder.transitions: does the 2-D branch guard the construction of the ragged array for input without
+    # any transition?  Recognised shape: an `if` whose test is `len(columns) == 0` / `columns.size == 0` /
+    # `not len(columns)` / `not columns.size` (columns or rows) and whose body returns (or assigns `tt` to) a
+    # RaggedArray built with one entry per trajectory (`len(assignments)` occurs in the expression).
     dpath = os.path.join(repo_dir, 'enspara', 'cards', 'disorder.py')
     with open(dpath, 'rb') as f:
         draw = f.read()
@@ -126,9 +203,13 @@ def _extract(repo_dir):
     guard = False
     if len(top_if) == 1:
         for stmt in top_if[0].orelse:
-            for node in ast.walk(stmt):
-                if isinstance(node, (ast.If, ast.IfExp, ast.Try)):
-                    guard = True
+            if isinstance(stmt, ast.If) and _is_empty_test(stmt.test) and not stmt.orelse:
+                for b in stmt.body:
+                    val = b.value if isinstance(b, (ast.Return, ast.Assign)) else None
+                    if val is not None:
+                        txt = ast.unparse(val)
+                        if 'RaggedArray' in txt and 'len(assignments)' in txt:
+                            guard = True
     else:
         guard = None
     out['all_quiet_guard'] = guard
@@ -153,11 +234,16 @@ def translate(repo_dir, gen_dir):
         L.append('def %sDefaultBuffer : Rat := %s' % (kind, _lean_rat(info['buffers'][kind])))
         L.append('def %sShift : Rat := %s' % (kind, _lean_rat(info['shift'][kind])))
     L.append('def coreDefaultBuffer : Rat := %s' % _lean_rat(info['buffers']['core']))
+    L.append('/-- boundary lists of `_rotamers` call sites outside the three wrappers: %s -/'
+             % (', '.join(e['where'] for e in info['extra_sets']) or 'none in the current source'))
+    L.append('def extraBoundarySets : List (List Rat) := [%s]' % ', '.join(
+        '[' + ', '.join(_lean_rat(v) for v in e['hb']) + ']' for e in info['extra_sets']))
     L.append('/-- every boundary list the library hands to `_rotamers` -/')
-    L.append('def boundarySets : List (List Rat) := [phiBoundaries, psiBoundaries, chiBoundaries]')
+    L.append('def boundarySets : List (List Rat) := [phiBoundaries, psiBoundaries, chiBoundaries] ++ extraBoundarySets')
     L.append('def defaultBuffers : List Rat := [phiDefaultBuffer, psiDefaultBuffer, chiDefaultBuffer, coreDefaultBuffer]')
-    L.append('/-- does the 2-D branch of `disorder.transitions` contain a conditional around the')
-    L.append('construction of the ragged array (the unchanged code does not) -/')
+    L.append('/-- does the 2-D branch of `disorder.transitions` guard the construction of the ragged array for input')
+    L.append('without any transition: `if len(columns) == 0` (or an equivalent emptiness test) whose body returns one')
+    L.append('empty row per trajectory -/')
     L.append('def transitionsAllQuietGuard : Bool := %s' % ('true' if info['all_quiet_guard'] else 'false'))
     L.append('end Ens.Rotamer.Generated')
     text = '\n'.join(L) + '\n'
@@ -171,8 +257,8 @@ def translate(repo_dir, gen_dir):
         with open(tmp, 'w') as f:
             f.write(text)
         os.replace(tmp, path)
-    return {'summary': 'sets %s buffers %s shift %s all_quiet_guard %s' % (
-                info['sets'], info['buffers'], info['shift'], info['all_quiet_guard']),
+    return {'summary': 'sets %s extra call sites %s buffers %s shift %s all_quiet_guard %s' % (
+                info['sets'], info['extra_sets'], info['buffers'], info['shift'], info['all_quiet_guard']),
             'file': 'lean/Model/Generated/RotamerConsts.lean', 'sha256_rotamer_py': info['sha'],
             'sha256_disorder_py': info['sha_disorder'], 'rewritten': old != text}
 
@@ -356,7 +442,7 @@ def finish_rot_case(rng, name, hb, b, kind, ang, default_b=None):
 
 
 def gen_rot_case(rng, sets, force_set=None, force_kind=None, n=None):
-    name = force_set or ['phi', 'psi', 'chi'][int(rng.integers(0, 3))]
+    name = force_set or list(sets)[int(rng.integers(0, len(sets)))]
     hb = [F(v) for v in sets[name]]
     b = buffer_choices(hb, rng)
     kind = force_kind or KINDS[int(rng.integers(0, len(KINDS)))]
@@ -505,7 +591,7 @@ def check_rot(ctx, case, got, model):
 
 def gen_err_cases(sets):
     out = []
-    for name in ('phi', 'psi', 'chi'):
+    for name in sets:
         hb = sets[name]
         maxb = Fraction(360, len(hb) - 1)
         for b in (Fraction(-1, 4), maxb, maxb + 5, Fraction(-15)):
@@ -535,7 +621,7 @@ def helper_scope(ctx, sets):
     """get_gates / is_buffered_transition on every state of every set, angles around and ON the gates"""
     from enspara.geometry import rotamer
     reqs, impl, meta = [], [], []
-    for name in ('phi', 'psi', 'chi'):
+    for name in sets:
         hb = [F(v) for v in sets[name]]
         nb = len(hb) - 1
         maxb = Fraction(360, nb)
@@ -726,6 +812,229 @@ def wrapper_scope(ctx, sets, shifts, wseed, thorough):
                 ctx.disagreement('Model.Rotamer.rotamers vs %s_rotamers column' % rec['kind'], dict(rec, model=r))
     ctx.note('wrapper_scope', {'columns_checked': len(reqs), 'model_mismatches': bad,
                                'trajectories': [t[0] for t in trajs], 'buffers': [str(x) for x in buffers]})
+
+
+# ----------------------------------------------------------------------------------------------
+# call histories: one mutable boundaries object reused across calls and edited in place between them, and
+# fresh equal-content objects in A(x), A(y), A(x) order (id recycling).  Every call is compared with the exact
+# oracle for the CURRENT content (module-level caches keyed by identity / stale results show up here).
+
+def random_set(rng, n_basins):
+    """a shifted boundary list with the structure of the library's sets (0 … 360, 2 or 3 basins)"""
+    if n_basins == 2:
+        return [Fraction(0), Fraction(int(rng.integers(40, 321))), Fraction(360)]
+    m1 = int(rng.integers(100, 141))
+    m2 = int(rng.integers(220, 261))
+    return [Fraction(0), Fraction(m1), Fraction(m2), Fraction(360)]
+
+
+def max_buffer_for(hb):
+    """largest buffer for which a basin touching neither end stays inside [0,360] (as for the library's
+    three-basin set with every accepted buffer); the accepted range otherwise"""
+    nb = len(hb) - 1
+    lim = Fraction(360, nb)
+    for i in range(1, nb - 1):
+        lim = min(lim, hb[i] + Q, 360 - hb[i + 1] + Q)
+    if nb >= 3:                                   # and no widened basin wraps onto itself (true for the library's set)
+        for i in range(nb):
+            lim = min(lim, (360 - (hb[i + 1] - hb[i])) / 2 + Q)
+    return lim
+
+
+def gen_hist_case(rng, sets):
+    obj = ['list', 'ndarray-int64', 'ndarray-float64'][int(rng.integers(0, 3))]
+    mode = 'inplace' if rng.random() < 0.7 else 'fresh'
+    nb = int(rng.choice([2, 2, 3]))
+    lib = [[F(v) for v in hb] for hb in sets.values() if len(hb) - 1 == nb]
+    pool = lib + [random_set(rng, nb) for _ in range(2)]
+    x = pool[int(rng.integers(0, len(pool)))]
+    y = pool[int(rng.integers(0, len(pool)))]
+    if y == x:
+        y = random_set(rng, nb)
+    z = pool[int(rng.integers(0, len(pool)))]
+    order = [[x, y, x], [x, y, x, y], [x, x, y, y, x], [x, y, z, x]][int(rng.integers(0, 4))]
+    same_b = rng.random() < 0.65
+    lim = min(max_buffer_for(h) for h in order)
+    pick_b = lambda: Fraction(int(rng.integers(0, int(lim * 4))), 4) if rng.random() < 0.8 else Fraction(0)  # noqa: E731
+    b0 = pick_b()
+    steps, prev = [], None
+    for hb in order:
+        b = b0 if same_b else pick_b()
+        gates = gate_values(hb, b)
+        old_gates = gate_values(prev[0], prev[1]) if prev else set()
+        call = ['rotamers', 'rotamers', 'exit', 'gates'][int(rng.integers(0, 4))]
+        # angles around the gates of the current AND of the previous content (the window where stale gates matter)
+        pts = sorted(gates | old_gates | {v for v in hb if v < 360})
+        ang = []
+        for _ in range(int(rng.integers(6, 16))):
+            if rng.random() < 0.7:
+                g = pts[int(rng.integers(0, len(pts)))]
+                ang.append((g + Fraction(int(rng.integers(-24, 25)), 4)) % 360)
+            else:
+                ang.append(Fraction(int(rng.integers(0, 1440)), 4))
+        ang = fix_gates(ang, gates, rng)
+        steps.append({'hb': [num(v) for v in hb], 'b': rat(b), 'call': call, 'angles': [rat(a) for a in ang]})
+        prev = (hb, b)
+    return {'t': 'hist', 'obj': obj, 'mode': mode, 'steps': steps}
+
+
+def run_hist(case):
+    """performs the calls of one history in order; returns the per-step observations"""
+    import gc
+    from enspara.geometry import rotamer
+    obj, mode = case['obj'], case['mode']
+
+    def make(vals):
+        if obj == 'list':
+            return list(vals)
+        return np.array(vals, dtype=obj.split('-')[1])
+    B = None
+    out = []
+    for st in case['steps']:
+        if mode == 'inplace' and B is not None and len(B) == len(st['hb']):
+            B[:] = st['hb']                                   # edit the SAME object in place
+        else:
+            B = None
+            gc.collect()
+            B = make(st['hb'])                                # a fresh object (its id may be a recycled one)
+        b = num(Fraction(*st['b']))
+        ang = [float(Fraction(*a)) for a in st['angles']]
+        nb = len(st['hb']) - 1
+        try:
+            if st['call'] == 'rotamers':
+                r = rotamer._rotamers(np.array(ang), B, b)
+                out.append({'ok': [int(v) for v in r]})
+            elif st['call'] == 'gates':
+                res = []
+                for s in range(nb):
+                    lo, up = rotamer.get_gates(s, B, b)
+                    res.append([rat(lo), rat(up)])
+                out.append({'ok': res})
+            else:
+                res = []
+                for k, a in enumerate(ang):
+                    res.append(bool(rotamer.is_buffered_transition(k % nb, a, B, b)))
+                out.append({'ok': res})
+        except Exception as e:  # noqa
+            out.append({'error': type(e).__name__})
+        content = [Fraction(v) for v in (B.tolist() if isinstance(B, np.ndarray) else B)]
+        out[-1]['content_ok'] = content == [Fraction(v) for v in st['hb']]
+    return out
+
+
+def hist_requests(case):
+    reqs = []
+    for st in case['steps']:
+        hbr = [rat(v) for v in st['hb']]
+        nb = len(st['hb']) - 1
+        if st['call'] == 'rotamers':
+            reqs.append({'op': 'C20.rotamers', 'angles': st['angles'], 'hb': hbr, 'b': st['b']})
+        elif st['call'] == 'gates':
+            reqs += [{'op': 'C20.gates', 's': s, 'hb': hbr, 'b': st['b']} for s in range(nb)]
+        else:
+            reqs += [{'op': 'C20.exit', 's': k % nb, 'a': a, 'hb': hbr, 'b': st['b']}
+                     for k, a in enumerate(st['angles'])]
+    return reqs
+
+
+def rot_problem(hb, b, ang, st):
+    """the property's predicate on one state sequence: (what, key) of the first problem, or None"""
+    nb = len(hb) - 1
+    wraps = self_wrapping_basins(hb, b)
+    if len(st) != len(ang) or any(s < 0 or s >= nb for s in st):
+        return 'wrong length / invalid basin index', None
+    if st[0] != basin_of(hb, ang[0]):
+        return 'first frame is not the basin containing its angle', None
+    known = None
+    for i in range(1, len(st)):
+        if st[i] != spec_step(hb, b, st[i - 1], ang[i]):
+            prev = st[i - 1]
+            if nb == 2 and prev in wraps and in_widened(hb, b, prev, ang[i]) and st[i] != prev:
+                known = ('two-basin set, widened basin covers the circle, yet the state changed at frame %d' % i, K_F13)
+            else:
+                return 'state at frame %d differs from the hysteresis automaton' % i, None
+    if b == 0 and st != [basin_of(hb, a) for a in ang]:
+        return 'zero buffer is not plain binning', None
+    return known
+
+
+def check_hist(ctx, case, obs, resp):
+    """obs = run_hist(case); resp = model answers for hist_requests(case)"""
+    calls = [s['call'] for s in case['steps']]
+    same_b = len({tuple(s['b']) for s in case['steps']}) == 1
+    ctx.case(case, nontrivial=True,
+             tags=['hist', 'hist-obj=%s' % case['obj'], 'hist-mode=%s' % case['mode'],
+                   'hist-same-buffer' if same_b else 'hist-buffers-differ'] + ['hist-call=%s' % c for c in set(calls)])
+    k = 0
+    for idx, (st, ob) in enumerate(zip(case['steps'], obs)):
+        hb = [F(v) for v in st['hb']]
+        b = Fraction(*st['b'])
+        ang = [Fraction(*a) for a in st['angles']]
+        nb = len(hb) - 1
+        n_req = 1 if st['call'] == 'rotamers' else (nb if st['call'] == 'gates' else len(ang))
+        model = resp[k:k + n_req]
+        k += n_req
+        rec = dict(case, failing_step=idx)
+        if 'error' in ob:
+            ctx.violation('history step %d (%s) raised %s' % (idx, st['call'], ob['error']), rec)
+            return
+        if not ob.get('content_ok', True):
+            ctx.violation('history step %d: the boundaries object was modified by the call' % idx, rec)
+            return
+        if st['call'] == 'rotamers':
+            pr = rot_problem(hb, b, ang, ob['ok'])
+            if pr is not None:
+                ctx.violation('history step %d, _rotamers on the current content of the reused boundaries object: %s'
+                              % (idx, pr[0]), dict(rec, got=ob['ok']), key=pr[1])
+                if pr[1] is None:
+                    return
+            if model[0].get('ok') != ob['ok']:
+                ctx.disagreement('Model.Rotamer.rotamers vs _rotamers in a call history', dict(rec, got=ob['ok'], model=model[0]))
+                return
+        elif st['call'] == 'exit':
+            gates = gate_values(hb, b)
+            wraps = self_wrapping_basins(hb, b)
+            for j, a in enumerate(ang):
+                s = j % nb
+                got = ob['ok'][j]
+                if a not in gates and got != (not in_widened(hb, b, s, a)):
+                    known = nb == 2 and s in wraps and got
+                    ctx.violation('history step %d: is_buffered_transition(%d, %s) on the current content says %s'
+                                  % (idx, s, float(a), got), dict(rec, got=ob['ok']), key=K_F13 if known else None)
+                    if not known:
+                        return
+                if model[j].get('ok') != got:
+                    ctx.disagreement('Model.Rotamer.isBufferedTransition vs is_buffered_transition in a call history',
+                                     dict(rec, got=ob['ok']))
+                    return
+        else:
+            # gates are not named by the property: expected values straight from the definition of the widened
+            # basin's ends as the code represents them are the model's business -> model comparison only
+            if [m.get('ok') for m in model] != ob['ok']:
+                ctx.disagreement('Model.Rotamer.getGates vs get_gates in a call history', dict(rec, got=ob['ok']))
+                return
+
+
+def hist_scope(ctx, sets):
+    cases = [gen_hist_case(ctx.rng, sets) for _ in range(ctx.n(250, 2500))]
+    # the reported scenario, literally: phi's list edited in place into psi's, same buffer, then back
+    for obj in ('list', 'ndarray-int64'):
+        for b in (0, 15):
+            ang = [rat(Fraction(x)) for x in (10, 150.25, 165.25, 170.5, 176.25, 185.5, 200, 170.5, 150.25, 350.5, 5)]
+            cases.append({'t': 'hist', 'obj': obj, 'mode': 'inplace', 'steps': [
+                {'hb': [0, 180, 360], 'b': rat(b), 'call': 'rotamers', 'angles': ang},
+                {'hb': [0, 160, 360], 'b': rat(b), 'call': 'rotamers', 'angles': ang},
+                {'hb': [0, 180, 360], 'b': rat(b), 'call': 'exit', 'angles': ang},
+                {'hb': [0, 160, 360], 'b': rat(b), 'call': 'gates', 'angles': ang}]})
+    obs = [run_hist(c) for c in cases]                    # real calls first, in order, history by history
+    reqs, spans = [], []
+    for c in cases:
+        r = hist_requests(c)
+        spans.append((len(reqs), len(reqs) + len(r)))
+        reqs += r
+    resp = ctx.driver(reqs)
+    for c, o, (lo, hi) in zip(cases, obs, spans):
+        check_hist(ctx, c, o, resp[lo:hi])
 
 
 # ----------------------------------------------------------------------------------------------
@@ -988,11 +1297,16 @@ def run(ctx):
     from enspara import __file__ as ens_file
     repo_dir = os.path.dirname(os.path.dirname(ens_file))
     info = _extract(repo_dir)
-    sets, shifts = info['sets'], info['shift']
+    sets, shifts = dict(info['sets']), info['shift']
+    for i, e in enumerate(info['extra_sets']):                        # other `_rotamers(` call sites, if any
+        sets['extra%d' % i] = e['hb']
+    buffers = dict(info['buffers'])
+    for k in sets:
+        buffers.setdefault(k, info['buffers']['core'])
     # the generated Lean constants are the ones this run extracted from the staged source
     consts = ctx.driver([{'op': 'C20.consts'}])[0].get('ok', {})
     model_sets = [[Fraction(n, d) for n, d in s] for s in consts.get('sets', [])]
-    if model_sets != [[F(v) for v in sets[k]] for k in ('phi', 'psi', 'chi')]:
+    if model_sets != [[F(v) for v in sets[k]] for k in sets]:
         ctx.disagreement('generated boundary sets in the Lean model differ from the staged source',
                          {'t': 'consts', 'model': consts, 'source': sets})
     ctx.note('boundary_sets', sets)
@@ -1002,16 +1316,16 @@ def run(ctx):
 
     # core routine
     cases = []
-    for name in ('phi', 'psi', 'chi'):                               # the coordinator's witness, per set
+    for name in sets:                                                # the coordinator's witness, per set
         cases.append({'t': 'rot', 'set': name, 'hb': list(sets[name]), 'b': rat(100), 'angles': [rat(10), rat(200), rat(10)],
                       'kind': 'witness', 'container': 'float64', 'hb_as_array': False})
     cases += [gen_rot_case(ctx.rng, sets) for _ in range(ctx.n(5000, 40000))]
     # default buffers of the wrappers on every set
-    for name in ('phi', 'psi', 'chi'):
+    for name in sets:
         for _ in range(ctx.n(20, 200)):
             c = gen_rot_case(ctx.rng, sets, force_set=name)
             hb = [F(v) for v in c['hb']]
-            b = F(info['buffers'][name])
+            b = F(buffers[name])
             c['b'] = rat(b)
             c['angles'] = [rat(a) for a in fix_gates([Fraction(*a) for a in c['angles']], gate_values(hb, b), ctx.rng)]
             if b == F(info['buffers']['core']) and ctx.rng.random() < 0.5:
@@ -1037,6 +1351,8 @@ def run(ctx):
         check_rot(ctx, c, call_rotamers(c), r)
     for c, r in zip(errs, resp[len(cases):]):
         check_rot_err(ctx, c, call_rotamers(c), r)
+
+    hist_scope(ctx, sets)
 
     wrapper_scope(ctx, sets, shifts, int(ctx.rng.integers(0, 2 ** 31)), ctx.thorough)
 
@@ -1075,6 +1391,9 @@ def replay(ctx, case):
         from enspara import __file__ as ens_file
         info = _extract(os.path.dirname(os.path.dirname(ens_file)))
         wrapper_scope(ctx, info['sets'], info['shift'], case['wseed'], case['thorough'])
+    elif t == 'hist':
+        c = {k: v for k, v in case.items() if k not in ('failing_step', 'got', 'model')}
+        check_hist(ctx, c, run_hist(c), ctx.driver(hist_requests(c)))
     elif t == 't1':
         check_t1(ctx, case, call_t1(case), ctx.driver([t_request(case)])[0])
     elif t == 't2':
